@@ -904,6 +904,7 @@ func c19Chan(r *Run) {
 	a, b = c19ChanPair()
 	c19CtxCheck(r, "chan.ctx.read", func(ctx context.Context) error { _, err := a.Read(ctx); return err })
 	c19CtxCheck(r, "chan.ctx.write", func(ctx context.Context) error { return b.Write(ctx, &Rpc{Id: 1}) })
+	c19ChanCancelledRead(r)
 }
 
 // ---------------------------------------------------------------------------
@@ -1434,6 +1435,7 @@ func c19HttpShapes(r *Run) {
 }
 
 func c19HttpCtx(r *Run) {
+	c19HttpCtxRetry(r)
 	node := c19NewNode(c19IdentityMapper)
 	defer node.Close()
 	rw := node.goh.NewConnection("idle-peer")
